@@ -124,7 +124,8 @@ pub fn gen_clock(rng: &mut Prng, cfg: &ClockCfg) -> (ClockSpec, Vec<(u32, u8)>) 
     while i < cfg.n {
         if Some(i) == long_at {
             marks.push((i as u32, CF::LongStuck as u8));
-            let len = rng.range(3_100, 9_000) as usize;
+            // up to ~6600 stuck measurements in one operation (still well below the stuck cap)
+            let len = if rng.chance(1, 3) { rng.range(9_000, 20_000) } else { rng.range(3_100, 9_000) } as usize;
             let d = if rng.chance(1, 4) { 0 } else { base + rng.below(amp) };
             for _ in 0..len {
                 t = t.wrapping_add(d);
